@@ -101,6 +101,8 @@ class ExprMixin:
         if kind == "module":
             return ModuleVal(r[1])
         if kind == "external":
+            if r[1] == "inspect" and r[2] in ("CORO_CREATED", "CORO_SUSPENDED", "CORO_RUNNING", "CORO_CLOSED"):
+                return mk_int({"CORO_CREATED": 0, "CORO_SUSPENDED": 1, "CORO_RUNNING": 2, "CORO_CLOSED": 3}[r[2]])
             return FuncVal("builtin", name=r[2], extra=r[1])
         if kind == "assign":
             mod, expr = r[1], r[2]
@@ -705,12 +707,15 @@ class ExprMixin:
             return k(self.type_of(obj), st)
         if cn is None:
             if attr in ("close", "send", "throw", "__await__", "cr_frame"):
-                return k(FuncVal("bound_builtin", name="opaque." + attr, self_val=obj), st)
+                f = z3.Function("hasattr_" + attr, RefS, z3.BoolSort())
+                if st.frame.spec:
+                    return k(FuncVal("bound_builtin", name="opaque." + attr, self_val=obj), st)
+                return self.split(st, f(obj.t),
+                                  lambda s: k(FuncVal("bound_builtin", name="opaque." + attr, self_val=obj), s),
+                                  lambda s: self.raise_exc(s, "AttributeError", attr), label="hasattr(%s)" % attr)
         # coroutine-typed object (e.g. Task.__runner__)
-        if cn == "coroutine":
-            if attr == "cr_frame":
-                return k(CoroFrame(obj), st)
-            return k(FuncVal("bound_builtin", name="opaque." + attr, self_val=obj), st)
+        if cn == "coroutine" and attr in ("cr_frame",):
+            return k(CoroFrame(obj), st)
         # data field?
         fd = None
         if cn in (None, "type", "object"):
@@ -884,6 +889,8 @@ class ExprMixin:
         return self.new_cell(st, out, lv.kind) if isinstance(base, (Cell, FldList)) else out
 
     def getitem(self, base, idx, st, k):
+        if self.is_opt(base):
+            return self.unopt(base, st, lambda b2, s2: self.getitem(b2, idx, s2, k))
         if isinstance(base, PyTup):
             if isinstance(idx, Val) and z3.is_int_value(z3.simplify(idx.t)):
                 return k(base.items[z3.simplify(idx.t).as_long()], st)
